@@ -35,3 +35,12 @@
 
 ; @template lemma:Trace:tprefix_init
 (forall ((a {T}) (v {E}) (c {T})) (! (=> (tprefix_{T} (snoc_{T} a v) c) (tprefix_{T} a c)) :pattern ((tprefix_{T} (snoc_{T} a v) c))))
+
+; @template lemma:List:nth_snocl
+(forall ((l {L}) (v {E}) (i Int)) (! (and (=> (and (<= 0 i) (< i (len_{L} l))) (= (nth_{L} (snocl_{L} l v) i) (nth_{L} l i))) (= (nth_{L} (snocl_{L} l v) (len_{L} l)) v) (= (len_{L} (snocl_{L} l v)) (+ (len_{L} l) 1))) :pattern ((nth_{L} (snocl_{L} l v) i))))
+
+; @template lemma:List:len_snocl
+(forall ((l {L}) (v {E})) (! (= (len_{L} (snocl_{L} l v)) (+ (len_{L} l) 1)) :pattern ((snocl_{L} l v))))
+
+; @template lemma:TraceOfList:tol_snocl
+(forall ((l {L}) (acc {T}) (v {E})) (! (= (tol_{T} acc (snocl_{L} l v)) (snoc_{T} (tol_{T} acc l) v)) :pattern ((tol_{T} acc (snocl_{L} l v)))))
